@@ -60,6 +60,7 @@ def observe(fam, obj, a):
 def run_case(c):
     if not cachetap.STATE["installed"]:
         cachetap.install()
+    families.HELD.clear()
     fam = families.FAMILIES[c["family"]]
     a = dict(families.INIT[c["family"]])
     obj = fam.build(a)
